@@ -1,4 +1,7 @@
 import Cell2v.Lemmas.Timer
+import Cell2v.Lemmas.TimerLive
+import Cell2v.Lemmas.TimerSvc
+import Cell2v.Lemmas.TimerFair
 /-!
 C14 — timers fire on the owner, never early, as often as asked, never after cancel.
 
@@ -141,6 +144,186 @@ example : let ops := [Op.add 2 0 [], .advance 2, .expire 2, .doNext 0, .cbStep, 
     createdOf (run ops).2 2 = some (0, 2, 2, []) ∧ cancelledIn (run ops).2 2 = false ∧
     ((run ops).1.tm 2).armed = true ∧ cbCount (run ops).2 2 = 2 := by decide
 
+/-! ### "again and again" with the consumer a Go channel allows: FIFO receives only -/
+
+/-- the step of the expiry goroutine: a timer whose runtime timer is pending and due, not
+cancelled, on a running manager, is appended to the queue (behind everything already there) -/
+theorem expiry_enqueues (s : State) (id : Nat) (ha : (s.tm id).armed = true) (hd : (s.tm id).exp ≤ s.now)
+    (hc : (s.tm id).cancelled = false) (hr : s.running = true) :
+    (step s (.expire id)).1.queue = s.queue ++ [id] ∧ (step s (.expire id)).2 = [] := by
+  simp [step, expire, ha, hd, hc, hr]
+
+/-- Bounded wait, every schedule: after an arbitrary history let the object of `id` sit at
+position `k` of the queue.  In EVERY continuation in which the consumer receives in channel
+order (`doNext 0` only; all other steps — expiries, owner calls, callbacks of the objects
+ahead incl. panics, time, `Stop` — arbitrary), as soon as the consumer has taken more than
+`k` elements the callback of `id` has been entered or `id` has been cancelled.  Together with
+`repeating_rearms` (always armed / queued / running) and `expiry_enqueues` this is the finite
+form of: under a consumer that keeps receiving, a repeating timer fires again and again. -/
+theorem fifo_bounded_wait (ops ops' : List Op) (id : Nat) (hf : FifoSched ops')
+    (hq : id ∈ (run ops).1.queue) (hn : (run ops).1.queue.idxOf id < recvs (run ops).1 ops') :
+    cbCount (run ops).2 id < cbCount (run (ops ++ ops')).2 id ∨ cancelledIn (run (ops ++ ops')).2 id = true := by
+  unfold run; rw [runFrom_append]
+  exact bounded_wait (inv_run ops) id ops' hf hq hn
+
+/-- two timers due together, `3` queued behind `2`: two receives in channel order reach it -/
+example : let ops := [Op.add 2 0 [], .add 2 0 [], .advance 2, .expire 2, .expire 3]
+    let ops' := [Op.doNext 0, .cbStep, .doNext 0]
+    FifoSched ops' ∧ 3 ∈ (run ops).1.queue ∧ (run ops).1.queue.idxOf 3 = 1 ∧ recvs (run ops).1 ops' = 2 ∧
+    cbCount (run ops).2 3 = 0 ∧ cbCount (run (ops ++ ops')).2 3 = 1 := by
+  refine ⟨?_, by decide, by decide, by decide, by decide, by decide⟩
+  intro o ho; simp at ho; rcases ho with rfl | rfl | rfl <;> rfl
+
+/-- … and when the object ahead cancels it, the other disjunct is the one that holds -/
+example : let ops := [Op.defScript 1 [.cancel 3], .add 2 1 [], .add 2 0 [], .advance 2, .expire 2, .expire 3]
+    let ops' := [Op.doNext 0, .cbStep, .cbStep, .doNext 0]
+    recvs (run ops).1 ops' = 2 ∧ cbCount (run (ops ++ ops')).2 3 = 0 ∧ cancelledIn (run (ops ++ ops')).2 3 = true := by
+  decide
+
+/-- "again and again" without out-of-order receives: whenever no callback is in progress, a
+repeating, never cancelled timer on a running manager has a continuation — time passes, its
+expiry goroutine runs, the consumer takes the queue head by head and lets every callback
+finish — after which it has fired once more, or one of the callbacks ahead of it in the queue
+has cancelled it. -/
+theorem repeating_fires_again_fifo (ops : List Op) (id t0 dl p : Nat) (a : List Nat)
+    (h : createdOf (run ops).2 id = some (t0, dl, p, a)) (hp : 0 < p)
+    (hnc : cancelledIn (run ops).2 id = false) (hr : (run ops).1.running = true) (hcur : (run ops).1.cur = none) :
+    ∃ ops', FifoSched ops' ∧
+      (cbCount (run ops).2 id < cbCount (run (ops ++ ops')).2 id ∨ cancelledIn (run (ops ++ ops')).2 id = true) := by
+  have I := inv_run ops
+  rcases repeating_rearms ops id t0 dl p a h hp hnc hr with h1 | h1 | h1
+  · obtain ⟨ops', hf, hres⟩ := alive_can_fire_fifo I id hr hcur (Or.inl h1)
+    exact ⟨ops', hf, by unfold run; rw [runFrom_append]; exact hres⟩
+  · obtain ⟨ops', hf, hres⟩ := alive_can_fire_fifo I id hr hcur (Or.inr h1)
+    exact ⟨ops', hf, by unfold run; rw [runFrom_append]; exact hres⟩
+  · simp [State.curId, hcur] at h1
+
+/-- a one-shot that has not fired yet, was not cancelled, manager running: it CAN fire (the
+lower half of "exactly once" does not presuppose that it went off and was drained), with a
+consumer that receives in channel order; it then has fired exactly once -/
+theorem oneshot_fires_fifo (ops : List Op) (id t0 dl : Nat) (a : List Nat)
+    (h : createdOf (run ops).2 id = some (t0, dl, 0, a)) (h0 : cbCount (run ops).2 id = 0)
+    (hnc : cancelledIn (run ops).2 id = false) (hr : (run ops).1.running = true) (hcur : (run ops).1.cur = none) :
+    ∃ ops', FifoSched ops' ∧
+      (cbCount (run (ops ++ ops')).2 id = 1 ∨ cancelledIn (run (ops ++ ops')).2 id = true) := by
+  have I := inv_run ops
+  have hx := I.hist id
+  cases hl : ((run ops).1.tm id).live with
+  | false => rw [(hx.createdDead hl).1] at h; cases h
+  | true =>
+    have hcc : ((run ops).1.tm id).cancelled = false := by
+      cases hc : ((run ops).1.tm id).cancelled with
+      | false => rfl
+      | true => have := hx.cancelComplete hc; simp_all
+    have hs : ((run ops).1.tm id).armed = true ∨ id ∈ (run ops).1.queue := by
+      rcases hx.alive hl hcc hr with h1 | h1 | h1 | h1
+      · exact Or.inl h1
+      · exact Or.inr h1
+      · simp [State.curId, hcur] at h1
+      · omega
+    obtain ⟨ops', hf, hres⟩ := alive_can_fire_fifo I id hr hcur hs
+    refine ⟨ops', hf, ?_⟩
+    rcases hres with h1 | h1
+    · left
+      have hc' : createdOf (run (ops ++ ops')).2 id = some (t0, dl, 0, a) := by
+        unfold run; rw [runFrom_append]
+        obtain ⟨ev, he⟩ := runFrom_trace (runFrom init [] ops).1 (runFrom init [] ops).2 ops'
+        rw [he]; exact createdOf_append_some _ _ _ _ h
+      have hle := oneshot_at_most_once (ops ++ ops') id t0 dl a hc'
+      have : cbCount (run ops).2 id < cbCount (run (ops ++ ops')).2 id := by
+        unfold run; rw [runFrom_append]; exact h1
+      omega
+    · right; unfold run; rw [runFrom_append]; exact h1
+
+example : let ops := [Op.after 3 0 [1], .add 1 0 [], .advance 1, .expire 3]
+    createdOf (run ops).2 2 = some (0, 3, 0, [1]) ∧ cbCount (run ops).2 2 = 0 ∧ cancelledIn (run ops).2 2 = false ∧
+    (run ops).1.running = true ∧ (run ops).1.cur = none := by decide
+
+/-! ### "again and again" as inevitability: every fair schedule -/
+
+/-- An infinite schedule `σ : Nat → Op` (`runN σ n`: state and trace after its first `n`
+steps, a finite history — `runN_eq_run`).  If `σ` is fair — the consumer receives in channel
+order and keeps getting turns, a callback in progress keeps executing, time keeps passing —
+and the timer `id` is steady in it — created with a period `p > 0`, never cancelled, its
+manager never stopped, its expiry goroutine eventually gets a turn — then after EVERY point of
+the schedule the callback of `id` is entered once more: it fires infinitely often.  No
+assumption on what the other timers' callbacks do (they may panic, create, cancel others). -/
+theorem repeating_fires_infinitely_often (σ : Nat → Op) (hf : Fair σ) (id n0 p : Nat)
+    (h : Steady σ id n0 p) (n : Nat) :
+    ∃ m, n < m ∧ cbCount (runN σ n).2 id < cbCount (runN σ m).2 id :=
+  fires_infinitely_often hf h n
+
+/-- "exactly once" as inevitability: in every fair schedule a one-shot timer that is never
+cancelled, on a manager that is never stopped, has fired exactly once from some point on -/
+theorem oneshot_fires_exactly_once_eventually (σ : Nat → Op) (hf : Fair σ) (id n0 : Nat)
+    (h : Undisturbed σ id n0 0) : ∃ m, ∀ m', m ≤ m' → cbCount (runN σ m').2 id = 1 := by
+  obtain ⟨m, hm, h1⟩ := fires_eventually hf h
+  refine ⟨m, fun m' hm' => ?_⟩
+  obtain ⟨t0, dl, a, hc⟩ := h.created
+  have hc' := createdOf_runN_mono σ id (show n0 ≤ m' by omega) _ hc
+  rw [runN_eq_run] at hc'
+  have hle := oneshot_at_most_once _ id t0 dl a hc'
+  rw [← runN_eq_run] at hle
+  have := cbCount_runN_mono σ id hm'
+  omega
+
+/-- the prefixes of a schedule are the finite histories all other theorems speak about -/
+theorem schedule_prefix_is_history (σ : Nat → Op) (n : Nat) : runN σ n = run ((List.range n).map σ) :=
+  runN_eq_run σ n
+
+/-- the hypotheses are satisfiable: `AddTimer(2)`, then for ever (time passes, the expiry
+goroutine gets a turn, the consumer receives, the callback runs) is fair and its timer steady -/
+example : Fair demoSched ∧ Steady demoSched 2 1 2 ∧ cbCount (runN demoSched 1).2 2 = 0 ∧
+    cbCount (runN demoSched 12).2 2 = 1 := ⟨demoSched_fair, demo_steady, by decide, by decide⟩
+
+/-- … and with `After(2)` first it is fair and its one-shot undisturbed -/
+example : Fair demoOnce ∧ Undisturbed demoOnce 2 1 0 ∧ cbCount (runN demoOnce 12).2 2 = 1 :=
+  ⟨demoOnce_fair, demoOnce_undisturbed, by decide⟩
+
+/-! ### the `Stop` exception -/
+
+/-- `Mgr.Stop` (also the first thing `StandardRunService.Stop` does) is permanent, and from then
+on a timer whose object is neither queued nor running never has its callback entered again —
+one-shot or repeating, in every continuation: the "exactly once" / "again and again" clauses
+hold for running managers only (hypothesis `running = true` of the theorems above). -/
+theorem nothing_new_after_stop (ops ops' : List Op) (id : Nat) (hr : (run ops).1.running = false)
+    (hq : id ∉ (run ops).1.queue) (hc : (run ops).1.curId ≠ some id) :
+    cbCount (run (ops ++ ops')).2 id = cbCount (run ops).2 id := by
+  unfold run; rw [runFrom_append]
+  exact silent_after_stop ⟨hr, hq, hc⟩ ops'
+
+/-- what already sits in the queue at `Stop` is still delivered by a consumer that goes on -/
+example : let ops := [Op.add 2 0 [], .add 3 0 [], .advance 2, .expire 2, .stop]
+    (run ops).1.running = false ∧ 3 ∉ (run ops).1.queue ∧ (run ops).1.curId ≠ some 3 ∧
+    cbCount (run (ops ++ [.advance 5, .expire 3, .doNext 0])).2 2 = 1 ∧
+    cbCount (run (ops ++ [.advance 5, .expire 3, .doNext 0, .cbStep, .doNext 0])).2 3 = 0 := by decide
+
+/-! ### `After/AddTimer` are two statements (`doLater`, then `timers.Store`) -/
+
+/-- The model's `create` is atomic; in Go the expiry goroutine of a timer created with no delay
+can run between `doLater` and `timers.Store` (the owner itself cannot do anything in between).
+`create` is exactly "arm, then store", and letting the expiry goroutine run in the gap gives
+the same state and events as letting it run right after the atomic `create`: with one owner
+the atomic step loses no behaviour. -/
+theorem create_gap_harmless (s : State) (d : Int) (r : Bool) (k : Nat) (a : List Nat) :
+    (create s d r k a).1 = createStore (createArm s d r k a) (s.nextId + 1) ∧
+    createStore (expire (createArm s d r k a) (s.nextId + 1)).1 (s.nextId + 1) = (expire (create s d r k a).1 (s.nextId + 1)).1 ∧
+    (expire (createArm s d r k a) (s.nextId + 1)).2 = (expire (create s d r k a).1 (s.nextId + 1)).2 :=
+  ⟨create_eq_arm_store s d r k a, (create_store_expire_commute s d r k a).1, (create_store_expire_commute s d r k a).2⟩
+
+/-- … but only with one owner.  A creator on a FOREIGN goroutine (not the consumer): between its
+`doLater` and its `timers.Store` the expiry goroutine, the consumer's `Do`, the callback and
+`Do`'s `timers.Delete` can all happen; the late `Store` then leaves a finished one-shot in
+`Mgr.timers` for ever (`inMap` although it is neither armed, queued nor running — a state no
+single-owner history reaches: `WF.gone`).  No clause of the property is violated (the callback
+ran exactly once), the entry leaks.  Reproduced on the real code: harness/c14/foreign_creator_test.go. -/
+theorem foreign_creator_leaks_entry :
+    let s0 := createArm init 0 false 0 []
+    let r := runFrom s0 [] [.expire 2, .doNext 0, .cbStep]
+    let s2 := createStore r.1 2
+    cbCount r.2 2 = 1 ∧ (s2.tm 2).inMap = true ∧ (s2.tm 2).armed = false ∧ 2 ∉ s2.queue ∧ s2.cur = none ∧
+    (s2.tm 2).period = 0 ∧ (s2.tm 2).cancelled = false := by decide
+
 /-! ### never early, with the arguments given at creation -/
 
 /-- Whenever a callback of `id` is entered at time `t` with arguments `a`: the timer was created
@@ -223,5 +406,113 @@ theorem head_check_needed :
     let s := (run [.add 5 0 [7], .advance 5, .expire 2, .cancel 2]).1
     (run [.add 5 0 [7], .advance 5, .expire 2, .cancel 2]).2 = [Event.created 2 0 5 5 [7], .cancel 2 5] ∧
     (doNextNoCheck s 0).2 = [Event.cb 2 5 [7]] ∧ (doNext s 0).2 = [] := by decide
+
+/-! ### service level: `Service.tryStartCheckTimer / checkExpired / freeTimer`
+
+`svcRun sops` is the service model (`Model/TimerSvc.lean`) after an arbitrary history of
+requests issued, responses arriving, time passing, expiry goroutines and loop receives. -/
+
+section svc
+open Cell2v.TimerSvc
+
+/-- A service history is a history of the timer manager model: same manager state, same event
+trace.  Every theorem above therefore holds for the manager of a service, for the callback
+`checkExpired` (whose `freeTimer` is a `Cancel` from inside the timer's own callback). -/
+theorem svc_refines_timer (sops : List SOp) :
+    ∃ ops, (run ops).1 = (svcRun sops).1.t ∧ (run ops).2 = (svcRun sops).2 :=
+  svc_refines sops
+
+/-- the manager of a service never holds a timer other than the one the service believes it
+owns (`timerCheckExpired`): no check timer leaks, whatever the sequence of busy and idle periods -/
+theorem svc_holds_only_owned_timer (sops : List SOp) (id : Nat)
+    (h : ((svcRun sops).1.t.tm id).inMap = true) : id = (svcRun sops).1.own ∧ (svcRun sops).1.own ≠ 0 :=
+  (sinv_run sops).1.only id h
+
+/-- an outstanding request always has its check timer: owned, held by the manager, repeating
+with the 1 s period, not cancelled, and waiting for its runtime timer or queued for the loop —
+so (by `repeating_fires_again_fifo` / `fifo_bounded_wait`) the request will be looked at -/
+theorem svc_request_keeps_check_timer (sops : List SOp) (hp : (svcRun sops).1.pending ≠ []) :
+    (svcRun sops).1.own ≠ 0 ∧ ((svcRun sops).1.t.tm (svcRun sops).1.own).inMap = true ∧
+    ((svcRun sops).1.t.tm (svcRun sops).1.own).period = checkPeriod ∧
+    ((svcRun sops).1.t.tm (svcRun sops).1.own).cancelled = false ∧
+    (((svcRun sops).1.t.tm (svcRun sops).1.own).armed = true ∨ (svcRun sops).1.own ∈ (svcRun sops).1.t.queue) := by
+  obtain ⟨hs, hi⟩ := sinv_run sops
+  have hn0 := hs.busy hp
+  obtain ⟨om, op, oc, ol, _⟩ := hs.owned hn0
+  refine ⟨hn0, om, op, oc, ?_⟩
+  rcases (hi.hist _).alive ol oc hs.running with h1 | h1 | h1 | h1
+  · exact Or.inl h1
+  · exact Or.inr h1
+  · simp [State.curId, hs.idle] at h1
+  · rw [op] at h1; simp [checkPeriod] at h1
+
+/-- the idle tick: the request table is empty and the loop receives the owned timer —
+`checkExpired` frees it: cancelled from inside its own callback, forgotten by the service,
+and the manager holds nothing any more -/
+theorem svc_idle_tick_frees (sops : List SOp) (tl : List Nat) (hp : (svcRun sops).1.pending = [])
+    (hn0 : (svcRun sops).1.own ≠ 0) (hq : (svcRun sops).1.t.queue = (svcRun sops).1.own :: tl) :
+    (svcStep (svcRun sops).1 .tick).1.own = 0 ∧
+    (∀ id, ((svcStep (svcRun sops).1 .tick).1.t.tm id).inMap = false) ∧
+    (svcStep (svcRun sops).1 .tick).2 =
+      [Event.cb (svcRun sops).1.own (svcRun sops).1.t.now ((svcRun sops).1.t.tm (svcRun sops).1.own).args,
+       Event.cancel (svcRun sops).1.own (svcRun sops).1.t.now] := by
+  obtain ⟨hs, hi⟩ := sinv_run sops
+  obtain ⟨om, op, oc, ol, os⟩ := hs.owned hn0
+  have hpe : (svcRun sops).1.pending.isEmpty = true := by simp [hp]
+  have he : entered (svcRun sops).1 = true := by simp [entered, hq, oc, hs.idle]
+  have hs' := sinv_step hs hi.wf .tick
+  have hown : (svcStep (svcRun sops).1 .tick).1.own = 0 := by
+    simp only [svcStep, he, hpe, if_true]
+  refine ⟨hown, ?_, ?_⟩
+  · intro id
+    cases hm : ((svcStep (svcRun sops).1 .tick).1.t.tm id).inMap with
+    | false => rfl
+    | true => exact absurd hown (hs'.only id hm).2
+  · simp only [svcStep, he, hpe, if_true, tick_free hs.idle hq oc os om ol hpe]
+
+/-- a check timer the service gave up never fires again -/
+theorem svc_freed_timer_never_fires (sops : List SOp) (pre post : List Event) (id t : Nat)
+    (h : (svcRun sops).2 = pre ++ Event.cancel id t :: post) : ∀ t' a, Event.cb id t' a ∉ post :=
+  (sinv_run sops).2.good.noCbAfterCancel pre post id t h
+
+/-- request, answer, one second later the tick finds the table empty: timer 2 freed; the next
+request arms timer 3 -/
+example : let sops := [SOp.req 1, .resp 1, .advance 1000, .expire 2, .tick]
+    (svcRun [SOp.req 1]).1.own = 2 ∧ (svcRun [SOp.req 1]).1.pending ≠ [] ∧
+    (svcRun [SOp.req 1, .resp 1, .advance 1000, .expire 2]).1.t.queue = [2] ∧
+    (svcRun sops).1.own = 0 ∧ (svcRun sops).2 = [Event.created 2 0 1000 1000 [], .cb 2 1000 [], .cancel 2 1000] ∧
+    (svcRun (sops ++ [.req 2])).1.own = 3 := by decide
+
+end svc
+
+/-! ### sensitivity: "the owner cancels" — a `Cancel` from a foreign goroutine is not covered -/
+
+/-- `Do` as a goroutine other than the consumer sees it: the `Canceled` test at its head … -/
+def doHead (s : State) (i : Nat) : Option Nat :=
+  match s.queue[i]? with
+  | some id => if (s.tm id).cancelled then none else some id
+  | none => none
+
+/-- … and the entry into the callback are two steps -/
+def doEnter (s : State) (i id : Nat) : State × List Event :=
+  ((s.pop i).setCur (some (id, s.scripts (s.tm id).script)), [.cb id s.now (s.tm id).args])
+
+/-- the model's `doNext` is exactly these two steps with nothing in between (one owner) -/
+theorem doNext_is_head_then_enter (s : State) (i id : Nat) (hc : s.cur = none) (h : doHead s i = some id) :
+    doNext s i = doEnter s i id := by
+  unfold doHead at h
+  split at h
+  next x hx =>
+    split at h
+    · cases h
+    next hcc => cases h; simp [doNext, hc, hx, hcc, doEnter]
+  · cases h
+
+/-- if another goroutine's `Cancel` lands in between, the callback is entered after `Cancel`
+returned: the single-owner assumption is needed, the theorems above do not cover that use -/
+theorem owner_assumption_needed :
+    let s := (run [.add 5 0 [7], .advance 5, .expire 2]).1
+    doHead s 0 = some 2 ∧ (cancelTm s 2).2 = [Event.cancel 2 5] ∧
+    (doEnter (cancelTm s 2).1 0 2).2 = [Event.cb 2 5 [7]] := by decide
 
 end Cell2v.Props.C14
